@@ -45,16 +45,24 @@ def gen_scenario(r, tier):
                              "fault drop ACKNACK -1 -1 2", "fault hold ACKNACK -1 -1 3"]))
     data_faults = r.random() < 0.2
     deleted = False
+    now = 1_000_000_000
     for _ in range(n):
         x = r.random()
         if x < 0.55:
             k = hot if r.random() < 0.65 else r.choice(keys)
-            ops.append("w 0 %d %d" % (k, r.choice([2, 10, 30])))
+            if r.random() < 0.4:
+                # explicit source timestamp, unrelated to the clock: the blocking time must not depend on it
+                ts = r.choice([now - 10_000_000_000, 0, 1, now + 5_000_000_000, now, now - 1, now + mbt if mbt > 0 else now + 1])
+                ops.append("w 0 %d %d %d" % (k, r.choice([2, 10, 30]), ts))
+            else:
+                ops.append("w 0 %d %d" % (k, r.choice([2, 10, 30])))
         elif x < 0.70:
             ops.append("net" if r.random() < 0.8 else "net %d" % r.randint(1, 3))
         elif x < 0.86:
             m = mbt if mbt > 0 else 100_000_000
-            ops.append("adv %d" % r.choice([1_000_000, 10_000_000, 50_000_000, m, max(1, m - 1), m + 1, 120_000_000, 250_000_000]))
+            dt = r.choice([1_000_000, 10_000_000, 50_000_000, m, max(1, m - 1), m + 1, 120_000_000, 250_000_000])
+            now += dt
+            ops.append("adv %d" % dt)
         elif x < 0.93:
             if second and not deleted and r.random() < 0.3:
                 deleted = True
@@ -93,6 +101,21 @@ def corpus():
         # replaced it at once would lose it for good: the reader would be sent a GAP)
         hdr + "W 0 0 rel=1 hist=1 mbt=100000000 dur=1 ; R 0 0 rel=1 ; net ; ms 0 ; fault drop DATA 1 -1 -1 ; "
               "w 0 1 10 ; net ; w 0 1 10 ; net ; adv 150000000" + end,
+        # the blocking time runs on the clock, not on the sample's source timestamp: parked writes with a source
+        # timestamp far in the past (-9 s, 0, 1 ns) still wait max_blocking_time and time out at park time + 100 ms ...
+        hdr + "W 0 0 rel=1 hist=1 mbt=100000000 dur=1 ; R 0 0 rel=1 ; net ; ms 0 ; fault drop ACKNACK -1 -1 -1 ; "
+              "w 0 1 10 ; w 0 1 10 -9000000000 ; adv 99999999 ; adv 1 ; w 0 1 10 0 ; adv 50000000 ; adv 50000000 ; "
+              "w 0 1 10 1 ; adv 100000000" + end,
+        # ... and complete with Ok when the ACKNACK arrives well inside the blocking time
+        hdr + "W 0 0 rel=1 hist=1 mbt=200000000 dur=1 ; R 0 0 rel=1 ; net ; ms 0 ; fault hold ACKNACK -1 -1 -1 ; "
+              "w 0 1 10 ; net ; w 0 1 10 -9000000000 ; adv 50000000 ; rel ; clr ; net ; fault hold ACKNACK -1 -1 -1 ; "
+              "w 0 1 10 0 ; adv 10000000 ; net ; rel ; clr ; net" + end,
+        # a source timestamp in the future (+5 s) does not prolong the wait: Timeout at park time + 100 ms,
+        # and with max_blocking_time 0 at once
+        hdr + "W 0 0 rel=1 hist=1 mbt=100000000 dur=1 ; R 0 0 rel=1 ; net ; ms 0 ; fault drop ACKNACK -1 -1 -1 ; "
+              "w 0 1 10 ; w 0 1 10 6000000000 ; adv 100000000 ; w 0 2 10 6100000000 ; w 0 2 10 6100000000 ; adv 99999999 ; adv 1" + end,
+        hdr + "W 0 0 rel=1 hist=1 mbt=0 dur=1 ; R 0 0 rel=1 ; net ; ms 0 ; fault drop ACKNACK -1 -1 -1 ; "
+              "w 0 1 10 6000000000 ; w 0 1 10 6000000000 ; w 0 1 10 -9000000000" + end,
         # boundary of the blocking time: one nanosecond before / exactly at the expiration
         hdr + "W 0 0 rel=1 hist=1 mbt=100000000 dur=1 ; R 0 0 rel=1 ; net ; ms 0 ; fault drop ACKNACK -1 -1 -1 ; "
               "w 0 1 10 ; w 0 1 10 ; adv 99999999 ; adv 1 ; w 0 1 10 ; adv 100000000" + end,
